@@ -11,6 +11,7 @@ order could produce (no half-done multi-step statement), own markers only."""
 from __future__ import annotations
 
 import itertools
+import os
 import random
 import sys
 import threading
@@ -619,9 +620,9 @@ def gen_cases(tier: str, seed: int):
     r = random.Random(f"{seed}:C19")
     # the few slow layer-2/3 cases first, so that a time budget only ever trims the schedule enumeration
     for i in range(6 if tier == "quick" else 60):
-        yield {"kind": "server", "clients": r.choice([6, 10]), "seed": r.randrange(1 << 30)}
+        yield {"kind": "server", "clients": r.choice([6, 10]), "seed": r.randrange(1 << 30), "lines": (0, 0.1)[i % 2]}
     for i in range(20 if tier == "quick" else 600):
-        yield {"kind": "stress", "threads": r.choice([8, 12, 16]), "seed": r.randrange(1 << 30)}
+        yield {"kind": "stress", "threads": r.choice([8, 12, 16]), "seed": r.randrange(1 << 30), "lines": (0, 0.05, 0, 0.3)[i % 4]}
     nchunks = 6 if tier == "quick" else 24
     for ch in range(nchunks):
         for name in SCENARIOS:
@@ -711,6 +712,55 @@ def run_case(case: dict, env: core.Env) -> None:
 
 
 # ---------------------------------------------------------------------------
+class LineYield:
+    """Yield injection inside fakesnow's own Python frames: a sys.monitoring LINE callback gives the GIL away (sleep(0)) at a
+    seeded random fraction of the statement starts executed in fakesnow/*.py, so that threads also change places *between* two
+    engine calls, where fakesnow touches the state its sessions share in Python (server.sessions, module-level expressions,
+    the instance).  Lines of other files are switched off at their first event.  Changes scheduling only, never behaviour."""
+
+    TOOL = 3
+
+    def __init__(self, seed: int, prob: float, env: core.Env):
+        self.rnd, self.prob, self.env = random.Random(seed), prob, env
+        self.lines = self.yields = 0
+        self.on = False
+
+    def __enter__(self) -> "LineYield":
+        if not self.prob or not hasattr(sys, "monitoring"):
+            return self
+        import fakesnow
+
+        mon = sys.monitoring
+        prefix = os.path.dirname(os.path.abspath(fakesnow.__file__)) + os.sep
+        rnd, prob = self.rnd, self.prob
+
+        def on_line(code: Any, lineno: int) -> Any:
+            if not code.co_filename.startswith(prefix):
+                return mon.DISABLE
+            self.lines += 1
+            if rnd.random() < prob:
+                self.yields += 1
+                time.sleep(0)
+            return None
+
+        mon.use_tool_id(self.TOOL, "fsverif-line-yield")
+        mon.register_callback(self.TOOL, mon.events.LINE, on_line)
+        mon.set_events(self.TOOL, mon.events.LINE)
+        self.on = True
+        return self
+
+    def __exit__(self, *a: Any) -> None:
+        if self.on:
+            mon = sys.monitoring
+            mon.set_events(self.TOOL, 0)
+            mon.register_callback(self.TOOL, mon.events.LINE, None)
+            mon.free_tool_id(self.TOOL)
+            mon.restart_events()
+            self.env.count("rounds_with_line_yield_injection")
+            self.env.count("line_events_seen_in_fakesnow_frames", self.lines)
+            self.env.count("line_yields_injected", self.yields)
+
+
 def _stress(case: dict, env: core.Env) -> None:
     r = random.Random(case["seed"])
     n = case["threads"]
@@ -750,12 +800,13 @@ def _stress(case: dict, env: core.Env) -> None:
     threads = [threading.Thread(target=body, args=(i,), daemon=True) for i in range(n)]
     tap.HOOK = hook
     try:
-        for th in threads:
-            th.start()
-        for th in threads:
-            th.join(timeout=WATCHDOG * 2)
-            if th.is_alive():
-                raise core.Inconclusive("stress thread watchdog")
+        with LineYield(case["seed"], case.get("lines", 0), env):
+            for th in threads:
+                th.start()
+            for th in threads:
+                th.join(timeout=WATCHDOG * 2)
+                if th.is_alive():
+                    raise core.Inconclusive("stress thread watchdog")
     finally:
         tap.HOOK = None
     env.count("stress_rounds")
@@ -842,12 +893,13 @@ def _server(case: dict, env: core.Env) -> None:
             errors.append((i, e))
 
     threads = [threading.Thread(target=client, args=(i,), daemon=True) for i in range(n)]
-    for th in threads:
-        th.start()
-    for th in threads:
-        th.join(timeout=WATCHDOG * 3)
-        if th.is_alive():
-            raise core.Inconclusive("server client watchdog")
+    with LineYield(case["seed"], case.get("lines", 0), env):
+        for th in threads:
+            th.start()
+        for th in threads:
+            th.join(timeout=WATCHDOG * 3)
+            if th.is_alive():
+                raise core.Inconclusive("server client watchdog")
     env.count("server_rounds")
     env.count("cmp_no_exception")
     for i, e in errors:
